@@ -20,6 +20,7 @@ import YashModel.Common.Proto
 import YashModel.Trap.Model
 import YashModel.Trap.Spec
 import YashModel.Trap.Builtin
+import YashModel.Trap.SyscallSpec
 open YashModel YashModel.Trap YashModel.Proto
 
 def condTable : List (String × Nat) :=
@@ -435,15 +436,30 @@ structure TB where
   /-- the shell is leaving (`exit`, or a failed special built-in) -/
   quit : Bool := false
 
+/-- the number that stands for an action text: `probe N` ↦ N, `probe N; kill -s USR2 $$` ↦ 1000 + N,
+    `probe N; trap "probe N+500" SIG; kill -s SIG $$` ↦ (1000 + SIG) * 1000 + N -/
 def tbCmdOf (text : String) : Nat :=
   match text.splitOn "; " with
   | [p] => ((p.dropPrefix? "probe ").bind (·.toString.toNat?)).getD 999
   | [p, _] => (((p.dropPrefix? "probe ").bind (·.toString.toNat?)).getD 999) + 1000
+  | [p, _, k] =>
+    let sig := match words k with
+      | ["kill", "-s", s, _] => ((signalTable.find? (·.2 == s)).map (·.1)).getD 0
+      | _ => 0
+    (((p.dropPrefix? "probe ").bind (·.toString.toNat?)).getD 999) + 1000 * (1000 + sig)
   | _ => 999
 
-/-- bodies of the `tb` scripts: `probe N` (c < 1000) or `probe N; kill -s USR2 $$` -/
+/-- bodies of the `tb` scripts: `probe N` (c < 1000), `probe N; kill -s USR2 $$`, or the action that
+    replaces itself by `probe N+500` and then sends its own signal to the shell again: the delivery
+    arrives (is collected by the poll after the `kill` command) while the action is still running -/
 def tbBody : Body := fun c _ t =>
-  ({ exit := 0 }, if c / 1000 = 1 then catchSignal t 125 else t)
+  ({ exit := 0 },
+   if c / 1000 = 1 then catchSignal t 125
+   else if c / 1000 ≥ 1000 then
+     let sig := c / 1000 - 1000
+     let sys : Sys := { disp := fun _ => .catch, blocked := fun _ => true }
+     catchSignal (setAction { sys := sys, traps := t } sig (.command (c % 1000 + 500)) 0 false).1.traps sig
+   else t)
 
 def tbLine (exit : Int) (c : Nat) : String := s!"{exit}:{encStr (toString (c % 1000))}"
 
@@ -451,7 +467,10 @@ def showTrapLine (l : TrapLine) : String :=
   let a := match l.action with
     | .default => "-"
     | .ignore => "E"
-    | .command c => if c / 1000 = 1 then s!"k{c % 1000}" else s!"c{c}"
+    | .command c =>
+      if c / 1000 = 1 then s!"k{c % 1000}"
+      else if c / 1000 ≥ 1000 then s!"r{condToString (c / 1000 - 1000)}.{c % 1000}"
+      else s!"c{c}"
   s!"T:{a}:{condToString l.cond}"
 
 /-- the hook after every command: pending traps run -/
@@ -476,6 +495,13 @@ def actionText (a : String) : Option String :=
   | ['E'] => some ""
   | 'c' :: r => (String.ofList r).toNat?.map fun n => s!"probe {n}"
   | 'k' :: r => (String.ofList r).toNat?.map fun n => s!"probe {n}; kill -s USR2 $$"
+  | 'r' :: r =>
+    match (String.ofList r).splitOn "." with
+    | [s, n] => do
+      let _ ← (signalTable.find? (·.2 == s))
+      let n ← n.toNat?
+      if n < 500 then some s!"probe {n}; trap \"probe {n + 500}\" {s}; kill -s {s} $$" else none
+    | _ => none
   | _ => none
 
 /-- `run_exit_trap` at the end of a (sub)shell -/
@@ -512,7 +538,9 @@ def tbSimple (k : Nat) (inner : Bool) (s : TB) (ws : List String) : Option TB :=
   match ws with
   | "T" :: a :: ops =>
     -- a body that signals `$$` from inside a subshell would reach the parent: not in the language
-    if inner ∧ a.startsWith "k" then none
+    if inner ∧ (a.startsWith "k" ∨ a.startsWith "r") then none
+    -- a re-sending action is set for the signal it names, and only for it
+    else if a.startsWith "r" ∧ ops ≠ [((a.drop 1).toString.splitOn ".").headD ""] then none
     else (actionText a).map fun t => tbTrap s k false (t :: ops)
   | "TN" :: ops => some (tbTrap s k false ops)
   | ["TX"] => some { s with exit := 2, quit := true }  -- `trap -z INT`: invalid option, hard error
@@ -614,6 +642,74 @@ def tbLineRun (line : String) : String :=
     let o := s!"out={",".intercalate s.out.reverse} end={s.ended.getD "exit"} exit={if s.ended.isSome then -1 else s.exit}"
     s!"{o}\t{verdict}"
 
+/-! `sc PLAN; [ign SIG…;] op; …`: the operations that make system calls, over the recording system
+    of `Syscalls.lean`; PLAN = `-` or one `0`/`1` per primitive call (`1` = that call fails).
+    Observation per operation: `r=<result> k=<calls>` and the changed views. -/
+
+def showCall (c : Call) : String :=
+  match c.prim with
+  | .mask add s => s!"M{if add then "+" else "-"}{condName s}{if c.ok then "" else "!"}"
+  | .action s d => if c.ok then s!"A:{condName s}:{showDisp d}>{showDisp c.old}" else s!"A:{condName s}:{showDisp d}!"
+
+def showOpResult (st : FState) (op : Op) : String :=
+  match op, resultF st op with
+  | .peek c, _ => showTS (peekStateF st c).2
+  | _, .none => "-"
+  | _, .setAction none => "ok"
+  | _, .setAction (some .systemError) => "errno"
+  | _, .setAction (some (.base e)) => showErr (some e)
+  | _, .ok b => if b then "ok" else "errno"
+
+def scLine (line : String) : String :=
+  let parts := (splitTrim line ";").filter (· ≠ "")
+  match parts with
+  | [] => "bad-case\t-"
+  | hd :: parts =>
+    let plan? : Option (List Bool) := match words hd with
+      | ["sc", "-"] => some []
+      | ["sc", p] => if p.length ≤ 64 ∧ p.toList.all (fun c => c = '0' ∨ c = '1') then some (p.toList.map (· = '1')) else none
+      | _ => none
+    let (ign, parts) := match parts with
+      | p :: rest => match parseInit p with
+        | some l => (l, rest)
+        | none => ([], p :: rest)
+      | [] => ([], [])
+    let init : Nat → Disp := fun s => if ign.contains s then .ignore else .default
+    let rec parseAll (l : List String) (k : Nat) : Option (List Op) :=
+      match l with
+      | [] => some []
+      | p :: rest => do
+        let o ← match parseOp k p with
+          | some (.op o) => match o with
+            | .setAction .. | .enableChld | .enableTerminators | .enableStoppers | .disableTerminators
+            | .disableStoppers | .disableAll | .enterSubshell .. | .peek .. => some o
+            | _ => none
+          | _ => none
+        let r ← parseAll rest (k + 1)
+        pure (o :: r)
+    match plan?, parseAll parts 0 with
+    | some plan, some ops =>
+      let rec go (st : FState) (vs : List String) (ops : List Op) (k : Nat) (obs : List String)
+          (faulted : Bool) (verdict : Option String) : List String × Option String :=
+        match ops with
+        | [] => (obs.reverse, verdict)
+        | op :: rest =>
+          let r := showOpResult st op
+          let st' := stepF st op
+          let calls := newCalls st st'
+          let vs' := views st'.toState
+          let d := delta vs vs'
+          let v := match verdict with
+            | some v => some v
+            | none => (scViolation init faulted st st' (resultF st op)).map fun w => s!"FAIL:{w}@{k}"
+          let ks := if calls.isEmpty then "-" else ",".intercalate (calls.map showCall)
+          go st' vs' rest (k + 1) (" ".intercalate (s!"r={r}" :: s!"k={ks}" :: d) :: obs)
+            (faulted || anyFailed calls) v
+      let st0 := FState.init init plan
+      let (obs, verdict) := go st0 (views st0.toState) ops 0 [] false none
+      " | ".intercalate obs ++ "\t" ++ verdict.getD "ok"
+    | _, _ => "bad-case\t-"
+
 def condsLine : String :=
   ",".intercalate (allConditions.map fun c => s!"{c}:{condToString c}") ++ "\tok"
 
@@ -623,6 +719,7 @@ def runLine (line : String) : String :=
   | "multi" :: ws => multiLine ws
   | "tb" :: _ => tbLineRun line
   | ["conds"] => condsLine
+  | "sc" :: _ => scLine line
   | _ => opsLine line
 
 def main : IO Unit := mainLoop runLine
